@@ -495,7 +495,14 @@ func (res *CheckResult) checkSource(source parser.Source) {
 				variableLiterals = append(variableLiterals, *allotment)
 				res.checkExpression(allotment, TypePortion)
 			case *parser.RatioLiteral:
-				sum.Add(sum, allotment.ToRatio())
+				if rat, ok := allotment.ToRatio(); ok {
+					sum.Add(sum, rat)
+				} else {
+					res.Diagnostics = append(res.Diagnostics, Diagnostic{
+						Range: allotment.Range,
+						Kind:  &DivByZero{},
+					})
+				}
 			case *parser.RemainingAllotment:
 				if isLast {
 					remainingAllotment = allotment
@@ -548,7 +555,14 @@ func (res *CheckResult) checkDestination(destination parser.Destination) {
 				variableLiterals = append(variableLiterals, *allotment)
 				res.checkExpression(allotment, TypePortion)
 			case *parser.RatioLiteral:
-				sum.Add(sum, allotment.ToRatio())
+				if rat, ok := allotment.ToRatio(); ok {
+					sum.Add(sum, rat)
+				} else {
+					res.Diagnostics = append(res.Diagnostics, Diagnostic{
+						Range: allotment.Range,
+						Kind:  &DivByZero{},
+					})
+				}
 			case *parser.RemainingAllotment:
 				if isLast {
 					remainingAllotment = allotment
